@@ -40,6 +40,56 @@ LINE_EXC = {
 }
 
 
+_site_cache = {}
+
+
+def fault_site_ok(filename, lineno):
+    """Line faults model *a statement of the library failing* (any tensor op
+    can: out of memory) or a cancellation arriving while it runs.  They are
+    delivered by raising from the line tracer, which CPython treats as raised
+    *before* the line's first instruction: the exception table entry that starts
+    at that very instruction does not apply.  Raising at the first line of a
+    `try`/`with` body (or at the `try:` / `with` header, which is also where
+    the implicit __exit__ call is attributed) would therefore skip the
+    finally/__exit__ that protects the statement - something no failing
+    statement can do.  Such lines are not fault sites (the fault moves to the
+    next traced line).  Neither is cleanup code - `finally` bodies and `except`
+    bodies that re-raise - where a failure is a double fault no library
+    survives."""
+    ex = _site_cache.get(filename)
+    if ex is None:
+        import ast
+        ex = set()
+        try:
+            with open(filename, "rb") as fh:
+                tree = ast.parse(fh.read())
+        except Exception:  # noqa
+            tree = None
+
+        def span(stmts):
+            for st in stmts:
+                for ln in range(st.lineno, (st.end_lineno or st.lineno) + 1):
+                    ex.add(ln)
+        if tree is not None:
+            for node in ast.walk(tree):
+                if isinstance(node, (ast.With, ast.AsyncWith)):
+                    first = node.body[0].lineno if node.body else node.lineno + 1
+                    for ln in range(node.lineno, max(node.lineno + 1, first)):
+                        ex.add(ln)
+                    if node.body:
+                        ex.add(node.body[0].lineno)
+                elif isinstance(node, ast.Try):
+                    ex.add(node.lineno)
+                    if node.body:
+                        ex.add(node.body[0].lineno)
+                    span(node.finalbody)
+                    for h in node.handlers:
+                        if any(isinstance(st, ast.Raise) and st.exc is None for st in h.body):
+                            span(h.body)
+        _site_cache[filename] = ex
+    return lineno not in ex
+
+
 class Instance:
     __slots__ = ("iid", "family", "mod", "recipe", "inflight", "slot")
 
@@ -54,9 +104,10 @@ class Instance:
 
 class Handle:
     __slots__ = ("rec", "outputs", "leaves", "dirty", "graph_alive", "family",
-                 "out_snap", "kind", "arg_ptrs")
+                 "out_snap", "kind", "arg_ptrs", "insts")
 
-    def __init__(self, rec, outputs, leaves, family, kind, arg_tensors=()):
+    def __init__(self, rec, outputs, leaves, family, kind, arg_tensors=(), insts=()):
+        self.insts = list(insts)
         self.arg_ptrs = set(t.untyped_storage().data_ptr() for t in arg_tensors)
         self.rec = rec
         self.outputs = outputs
@@ -129,6 +180,7 @@ class Client:
         self.pending = []      # faults armed for the current attempt
         self.fired = []
         self.io_enabled = True
+        self.waiting_lock = False
         self.tracing = False
         prefix = env.LIB_PREFIX
         world_ = world
@@ -150,10 +202,15 @@ class Client:
         self.lines += 1
         self.k += 1
         w.stats["lines"] += 1
-        site = (frame.f_code.co_filename[len(env.LIB_PREFIX):], frame.f_lineno)
+        fn = frame.f_code.co_filename
+        site = (fn[len(env.LIB_PREFIX):], frame.f_lineno)
         w.sites.add(site)
         for f in self.pending:
             if f["kind"] in ("op_error", "async_exc") and f["at"] == self.lines:
+                if not fault_site_ok(fn, frame.f_lineno):
+                    f["at"] += 1      # not a point where a statement can fail
+                    w.stats["faults_deferred"] = w.stats.get("faults_deferred", 0) + 1
+                    break
                 self.pending.remove(f)
                 self.fired.append(f)
                 w.fault_fired(self, f, site)
@@ -178,7 +235,8 @@ class Client:
         self.opens += 1
         self.k += 1
         w.stats["io_opens"] += 1
-        mod = None
+        # a stored byte inverted earlier in this run stays inverted
+        mod = w.corrupt.get(name)
         for f in list(self.pending):
             if f["kind"] in ("io_open", "io_eof", "io_flip") and f["at"] == self.opens:
                 self.pending.remove(f)
@@ -187,8 +245,31 @@ class Client:
                 if f["kind"] == "io_open":
                     raise seams.OPEN_ERRORS[f["exc"]]()
                 mod = ("eof" if f["kind"] == "io_eof" else "flip", f["arg"])
+                if f["kind"] == "io_flip":
+                    w.corrupt[name] = mod
         w.sched.decide(self.idx, [self.idx, self.op["id"], self.k], in_lib=True)
         return mod
+
+    def on_sync(self, what):
+        """an intercepted synchronisation point (simulated lock)"""
+        self.k += 1
+        self.world.stats["sync_points"] = self.world.stats.get("sync_points", 0) + 1
+        self.world.sched.decide(self.idx, [self.idx, self.op["id"], self.k], in_lib=True)
+
+    def wait_for(self, pred):
+        w = self.world
+        self.k += 1
+        w.stats["lock_waits"] = w.stats.get("lock_waits", 0) + 1
+        was = sys.gettrace()
+        sys.settrace(None)
+        self.waiting_lock = True
+        try:
+            w.sched.block(self.idx, [self.idx, self.op["id"], self.k], pred)
+            self.waiting_lock = False
+            w.sched.state[self.idx] = "ready"
+            w.sched.pred[self.idx] = None
+        finally:
+            sys.settrace(was)
 
     # ---- running library code ---------------------------------------------
     def guarded(self, fn):
@@ -294,6 +375,7 @@ class World:
         self.dtype_sensitive = 0
         self.harness_error = None
         self.signaled = False
+        self.corrupt = {}      # file name -> persistent ("flip", bit) corruption
         self.live_args = []
         self.handles = []
         self.probes = {}
@@ -320,6 +402,7 @@ class World:
              "client": rec.get("client") if rec else None,
              "op_id": rec.get("op_id") if rec else None,
              "op": rec.get("kind") if rec else None,
+             "family": rec.get("family") if rec else None,
              "message": msg}
         self.violations.append(v)
         self.log(("viol", invariant, v["client"], v["op_id"]))
@@ -399,6 +482,16 @@ class World:
         inst.mod = apply_convert(inst.mod, op["how"], torch)
         inst.recipe = inst.recipe + [["convert", op["how"]]]
         rec["outcome"] = "ok"
+        # torch semantics, not the library's: nn.Module._apply rewrites
+        # Parameter.data in place, so a graph recorded before the conversion
+        # holds filters of the new dtype.  Converting a module between a
+        # forward and its backward is the user's error; such graphs are not
+        # used for backward any more.
+        for h in self.handles:
+            if h.rec.get("iid") == inst.iid or h.rec.get("iid2") == inst.iid:
+                if h.graph_alive:
+                    h.graph_alive = False
+                    self.probe("graph_invalidated_by_convert")
 
     def op_restart(self, cl, op, rec):
         inst = self.slots.get(op["slot"])
@@ -474,11 +567,15 @@ class World:
         # I1: arguments untouched (also after a faulted call)
         if storage_bytes(base) != before:
             self.violation("I1-arg-mutated", rec, "input tensor storage changed by the call")
+        elif bool(x.requires_grad) != bool(op.get("requires_grad")) or x.grad is not None \
+                or tuple(x.shape) != tuple(spec["shape"]):
+            self.violation("I1-arg-mutated", rec, "input tensor metadata (requires_grad / .grad / "
+                           "shape) changed by the call")
         self.live_args.append((rec, [(base, before)], None))
         if status == "ok":
             rec["out_snap"] = snap(val)
             rec["out_digest"] = snap_digest(rec["out_snap"])
-            h = Handle(rec, val, [x] if x.requires_grad else [], inst.family, "fwd", [base])
+            h = Handle(rec, val, [x] if x.requires_grad else [], inst.family, "fwd", [base], [inst])
             cl.regs[op["out"]] = h
             self.handles.append(h)
         else:
@@ -525,9 +622,53 @@ class World:
         if status == "ok":
             rec["out_snap"] = snap(val)
             rec["out_digest"] = snap_digest(rec["out_snap"])
-            hh = Handle(rec, val, leaves, inst.family, "inv", tens)
+            hh = Handle(rec, val, leaves, inst.family, "inv", tens, [inst])
             cl.regs[op["out"]] = hh
             self.handles.append(hh)
+        else:
+            cl.regs.pop(op["out"], None)
+
+    def op_roundtrip(self, cl, op, rec):
+        """forward then inverse in one autograd graph (x -> pyramid -> x')."""
+        torch = self.L.torch
+        fi = self.slots.get(op["slot"])
+        ii = self.slots.get(op["slot2"])
+        if fi is None or ii is None:
+            return self._skip(rec, "empty-slot")
+        if catalog.INV_OF.get(fi.family) != ii.family:
+            return self._skip(rec, "not-a-pair")
+        base, x = make_tensor(op["arg"])
+        if op.get("requires_grad"):
+            x.requires_grad_(True)
+        before = storage_bytes(base)
+        rec["family"] = fi.family
+        rec["recipe"] = fi.recipe
+        rec["recipe2"] = ii.recipe
+        rec["iid"] = fi.iid
+        rec["iid2"] = ii.iid
+        rec["mod_dtype"] = DTNAME.get(catalog.module_dtype(fi.mod))
+        rec["mod_dtype2"] = DTNAME.get(catalog.module_dtype(ii.mod))
+        fm, im = fi.mod, ii.mod
+        if fi.inflight > 0 or ii.inflight > 0:
+            self.stats["calls_on_shared_instance"] += 1
+        fi.inflight += 1
+        ii.inflight += 1
+        try:
+            status, val = cl.guarded(lambda: call_with_mode(
+                torch, lambda: roundtrip(fm, im, x), op.get("grad_mode", "ambient")))
+        finally:
+            fi.inflight -= 1
+            ii.inflight -= 1
+        self._finish(cl, rec, status, val)
+        if storage_bytes(base) != before:
+            self.violation("I1-arg-mutated", rec, "input tensor storage changed by the call")
+        self.live_args.append((rec, [(base, before)], None))
+        if status == "ok":
+            rec["out_snap"] = snap(val)
+            rec["out_digest"] = snap_digest(rec["out_snap"])
+            h = Handle(rec, val, [x] if x.requires_grad else [], fi.family, "rt", [base], [fi, ii])
+            cl.regs[op["out"]] = h
+            self.handles.append(h)
         else:
             cl.regs.pop(op["out"], None)
 
@@ -545,9 +686,17 @@ class World:
         rec["fwd_rec"] = h.rec
         retain = bool(op.get("retain")) or bool(rec["armed"]) or rec["retry"]
         rec["retain"] = retain
-        status, val = cl.guarded(
-            lambda: torch.autograd.grad(outs, inputs, cots, retain_graph=retain,
-                                        allow_unused=True))
+        # a backward in flight pins its modules like a forward does (a
+        # conversion rewrites Parameter.data under a running backward otherwise)
+        for inst in h.insts:
+            inst.inflight += 1
+        try:
+            status, val = cl.guarded(
+                lambda: torch.autograd.grad(outs, inputs, cots, retain_graph=retain,
+                                            allow_unused=True))
+        finally:
+            for inst in h.insts:
+                inst.inflight -= 1
         if not retain:
             h.graph_alive = False
         self._finish(cl, rec, status, val)
@@ -641,6 +790,14 @@ class World:
                 self.violation("I4-output-unstable", h.rec,
                                "a returned value changed after return although its owner "
                                "never touched it")
+
+
+def roundtrip(fm, im, x):
+    y = fm(x)
+    yl, yh = y
+    if isinstance(yl, (list, tuple)):
+        yl = yl[-1]
+    return im((yl, yh)), y
 
 
 def check_args_untouched(before, ident):
@@ -845,7 +1002,7 @@ def make_chooser(plan, n):
     return RandomWalk(rng, kn.get("switch_prob", 0.1))
 
 
-def run_plan(plan, reference=True, watchdog=120.0):
+def run_plan(plan, reference=True, watchdog=40.0):
     from . import reference as refmod
     L = seams.fresh_library(patch_stream=True)
     torch = L.torch
@@ -863,17 +1020,27 @@ def run_plan(plan, reference=True, watchdog=120.0):
                for i, c in enumerate(clients)]
     gc.collect()
     gc.disable()
+    deadlocked = False
     try:
-        w.sched.run(threads, watchdog)
+        try:
+            w.sched.run(threads, watchdog)
+        except Deadlock as e:
+            if not any(c.waiting_lock for c in clients):
+                raise
+            # every client waits for a lock the library took and never gave
+            # back (or a lock cycle): calls that never return
+            deadlocked = True
+            w.violation("I8-deadlock", None, "clients wait forever on library locks: %s" % e)
         if w.harness_error:
             raise env.HarnessError(w.harness_error)
-        w.end_of_run_checks()
-        if w.profile == "C18":
+        if not deadlocked:
+            w.end_of_run_checks()
+        if w.profile == "C18" and not deadlocked:
             tables.final_loads(w)
         if np.geterr() != np_err:
             w.probe("np_seterr_leak")
             np.seterr(**np_err)
-        if reference:
+        if reference and not deadlocked:
             refmod.check_history(w)
     finally:
         gc.enable()
